@@ -99,21 +99,309 @@ proof fn lemma_name_is_plain(n: Seq<char>)
     if has_prefix(n, "types."@) { assert(n.subrange(0, 6)[5] == '.'); assert(n[5] == '.'); }
 }
 
+/// characters of `n[][]..`: name characters and brackets only
+pub open spec fn arr_chars(s: Seq<char>) -> bool {
+    forall|i: int| 0 <= i < s.len() ==> (name_char(#[trigger] s[i]) || s[i] == '[' || s[i] == ']')
+}
+
+proof fn lemma_brackets(k: nat)
+    ensures
+        brackets(k).len() == 2 * k,
+        forall|i: int| 0 <= i < brackets(k).len() ==> (#[trigger] brackets(k)[i] == '[' || brackets(k)[i] == ']'),
+        k > 0 ==> brackets(k) == brackets((k - 1) as nat) + "[]"@,
+    decreases k,
+{
+    lemma_lits();
+    if k > 0 {
+        lemma_brackets((k - 1) as nat);
+        let b = brackets((k - 1) as nat);
+        assert(brackets(k) == b + "[]"@);
+        assert forall|i: int| 0 <= i < brackets(k).len() implies (#[trigger] brackets(k)[i] == '[' || brackets(k)[i] == ']') by {
+            if i < b.len() { assert(brackets(k)[i] == b[i]); } else { assert(brackets(k)[i] == "[]"@[i - b.len()]); }
+        }
+    } else {
+        assert(brackets(0).len() == 0);
+    }
+}
+
+/// shape facts about `n ++ [] * k` for a name n
+proof fn lemma_array_shape(n: Seq<char>, k: nat)
+    requires ts_name(n),
+    ensures
+        arr_chars(n + brackets(k)),
+        (n + brackets(k)).len() == n.len() + 2 * k,
+        (n + brackets(k))[0] == n[0],
+        k > 0 ==> has_suffix(n + brackets(k), "[]"@)
+            && (n + brackets(k)).subrange(0, (n + brackets(k)).len() - 2) == n + brackets((k - 1) as nat)
+            && !builtin(n + brackets(k)),
+        k == 0 ==> n + brackets(k) == n,
+        !has_suffix(n + brackets(k), " | null"@), !has_suffix(n + brackets(k), " | undefined"@),
+        !has_prefix(n + brackets(k), "Record<"@), !has_prefix(n + brackets(k), "Map<"@),
+{
+    lemma_lits();
+    lemma_brackets(k);
+    let s = n + brackets(k);
+    assert forall|i: int| 0 <= i < s.len() implies (name_char(#[trigger] s[i]) || s[i] == '[' || s[i] == ']') by {
+        if i < n.len() { assert(s[i] == n[i]); } else { assert(s[i] == brackets(k)[i - n.len()]); }
+    }
+    if k > 0 {
+        let b = brackets((k - 1) as nat);
+        assert(s =~= (n + b) + "[]"@);
+        assert(s.subrange(s.len() - 2, s.len() as int) =~= "[]"@);
+        assert(s.subrange(0, s.len() - 2) =~= n + b);
+        assert(s[s.len() - 1] == ']');
+        if builtin(s) { assert(s.last() == ']'); }
+    } else {
+        assert(brackets(0) =~= Seq::<char>::empty());
+        assert(s =~= n);
+    }
+    if has_suffix(s, " | null"@) { assert(s.subrange(s.len() - 7, s.len() as int)[0] == ' '); assert(s[s.len() - 7] == ' '); }
+    if has_suffix(s, " | undefined"@) { assert(s.subrange(s.len() - 12, s.len() as int)[0] == ' '); assert(s[s.len() - 12] == ' '); }
+    if has_prefix(s, "Record<"@) { assert(s.subrange(0, 7)[6] == '<'); assert(s[6] == '<'); }
+    if has_prefix(s, "Map<"@) { assert(s.subrange(0, 4)[3] == '<'); assert(s[3] == '<'); }
+}
+
+/// `x ++ " | null"` (x = name with brackets): not a builtin, no [] suffix, no Record</Map< prefix
+proof fn lemma_union_shape(x: Seq<char>, suffix: Seq<char>)
+    requires arr_chars(x), x.len() > 0, suffix == " | null"@ || suffix == " | undefined"@,
+    ensures
+        !builtin(x + suffix), !has_suffix(x + suffix, "[]"@),
+        !has_prefix(x + suffix, "Record<"@), !has_prefix(x + suffix, "Map<"@),
+        has_suffix(x + suffix, suffix),
+        (x + suffix).subrange(0, (x + suffix).len() - suffix.len()) == x,
+        suffix == " | undefined"@ ==> !has_suffix(x + suffix, " | null"@),
+{
+    lemma_lits();
+    let s = x + suffix;
+    assert(s.subrange(s.len() - suffix.len(), s.len() as int) =~= suffix);
+    assert(s.subrange(0, s.len() - suffix.len()) =~= x);
+    assert(s[x.len() as int] == ' ') by { assert(s[x.len() as int] == suffix[0]); }
+    assert forall|i: int| 0 <= i < s.len() implies s[i] != '<' by {
+        if i < x.len() { assert(s[i] == x[i]); } else { assert(s[i] == suffix[i - x.len()]); }
+    }
+    if builtin(s) { assert(s[x.len() as int] == ' '); }
+    if has_suffix(s, "[]"@) { assert(s.subrange(s.len() - 2, s.len() as int)[1] == ']'); assert(s[s.len() - 1] == ']'); assert(s[s.len() - 1] == suffix[suffix.len() - 1]); }
+    if has_prefix(s, "Record<"@) { assert(s.subrange(0, 7)[6] == '<'); assert(s[6] == '<'); }
+    if has_prefix(s, "Map<"@) { assert(s.subrange(0, 4)[3] == '<'); assert(s[3] == '<'); }
+    if suffix == " | undefined"@ && has_suffix(s, " | null"@) {
+        assert(s.subrange(s.len() - 7, s.len() as int)[6] == 'l');
+        assert(s[s.len() - 1] == 'l');
+        assert(s[s.len() - 1] == suffix[11]);
+    }
+}
+
+/// C02 for the shapes the visitors emit around a single name: `N`, `N[]..[]`, and those ` | null` / ` | undefined`
+pub open spec fn qualifies(s: Seq<char>, r: Seq<char>) -> bool {
+    &&& forall|n: Seq<char>, k: nat| #![trigger n + brackets(k)] ts_name(n) && s == n + brackets(k) ==> r == qname(n) + brackets(k)
+    &&& forall|n: Seq<char>, k: nat| #![trigger n + brackets(k)] ts_name(n) && s == n + brackets(k) + " | null"@ ==> r == qname(n) + brackets(k) + " | null"@
+    &&& forall|n: Seq<char>, k: nat| #![trigger n + brackets(k)] ts_name(n) && s == n + brackets(k) + " | undefined"@ ==> r == qname(n) + brackets(k) + " | undefined"@
+}
+
+/// s is none of the shapes `qualifies` speaks about
+pub open spec fn no_shape(s: Seq<char>) -> bool {
+    &&& forall|n: Seq<char>, k: nat| #![trigger n + brackets(k)] ts_name(n) ==> s != n + brackets(k)
+    &&& forall|n: Seq<char>, k: nat| #![trigger n + brackets(k)] ts_name(n) ==> s != n + brackets(k) + " | null"@
+    &&& forall|n: Seq<char>, k: nat| #![trigger n + brackets(k)] ts_name(n) ==> s != n + brackets(k) + " | undefined"@
+}
+
+proof fn lemma_exit_builtin(s: Seq<char>)
+    requires builtin(s),
+    ensures qualifies(s, s),
+{
+    lemma_lits();
+    assert forall|n: Seq<char>, k: nat| #![trigger n + brackets(k)] ts_name(n) && s == n + brackets(k) implies s == qname(n) + brackets(k) by {
+        lemma_array_shape(n, k);
+        assert(k == 0);
+        assert(n == s);
+        assert(brackets(0) =~= Seq::<char>::empty());
+        assert(qname(n) + brackets(k) =~= s);
+    }
+    assert forall|n: Seq<char>, k: nat| #![trigger n + brackets(k)] ts_name(n) && s == n + brackets(k) + " | null"@ implies s == qname(n) + brackets(k) + " | null"@ by {
+        lemma_array_shape(n, k);
+        lemma_union_shape(n + brackets(k), " | null"@);
+    }
+    assert forall|n: Seq<char>, k: nat| #![trigger n + brackets(k)] ts_name(n) && s == n + brackets(k) + " | undefined"@ implies s == qname(n) + brackets(k) + " | undefined"@ by {
+        lemma_array_shape(n, k);
+        lemma_union_shape(n + brackets(k), " | undefined"@);
+    }
+}
+
+proof fn lemma_exit_array(s: Seq<char>, base: Seq<char>, rb: Seq<char>)
+    requires has_suffix(s, "[]"@), base == s.subrange(0, s.len() - 2), qualifies(base, rb),
+    ensures qualifies(s, rb + "[]"@),
+{
+    lemma_lits();
+    let r = rb + "[]"@;
+    assert forall|n: Seq<char>, k: nat| #![trigger n + brackets(k)] ts_name(n) && s == n + brackets(k) implies r == qname(n) + brackets(k) by {
+        lemma_array_shape(n, k);
+        if k == 0 { lemma_name_is_plain(n); assert(false); }
+        let k1 = (k - 1) as nat;
+        assert(base == n + brackets(k1));
+        assert(rb == qname(n) + brackets(k1));
+        lemma_brackets(k);
+        assert(r =~= qname(n) + brackets(k));
+    }
+    assert forall|n: Seq<char>, k: nat| #![trigger n + brackets(k)] ts_name(n) && s == n + brackets(k) + " | null"@ implies r == qname(n) + brackets(k) + " | null"@ by {
+        lemma_array_shape(n, k);
+        lemma_union_shape(n + brackets(k), " | null"@);
+    }
+    assert forall|n: Seq<char>, k: nat| #![trigger n + brackets(k)] ts_name(n) && s == n + brackets(k) + " | undefined"@ implies r == qname(n) + brackets(k) + " | undefined"@ by {
+        lemma_array_shape(n, k);
+        lemma_union_shape(n + brackets(k), " | undefined"@);
+    }
+}
+
+proof fn lemma_exit_union(s: Seq<char>, suffix: Seq<char>, base: Seq<char>, rb: Seq<char>)
+    requires
+        suffix == " | null"@ || suffix == " | undefined"@,
+        has_suffix(s, suffix), base == s.subrange(0, s.len() - suffix.len()), qualifies(base, rb),
+        suffix == " | undefined"@ ==> !has_suffix(s, " | null"@),
+    ensures qualifies(s, rb + suffix),
+{
+    lemma_lits();
+    let r = rb + suffix;
+    assert forall|n: Seq<char>, k: nat| #![trigger n + brackets(k)] ts_name(n) && s == n + brackets(k) implies r == qname(n) + brackets(k) by {
+        lemma_array_shape(n, k);
+    }
+    assert forall|n: Seq<char>, k: nat| #![trigger n + brackets(k)] ts_name(n) && s == n + brackets(k) + " | null"@ implies r == qname(n) + brackets(k) + " | null"@ by {
+        lemma_array_shape(n, k);
+        lemma_union_shape(n + brackets(k), " | null"@);
+        if suffix == " | null"@ {
+            assert(base == n + brackets(k));
+            assert(rb == qname(n) + brackets(k));
+        }
+    }
+    assert forall|n: Seq<char>, k: nat| #![trigger n + brackets(k)] ts_name(n) && s == n + brackets(k) + " | undefined"@ implies r == qname(n) + brackets(k) + " | undefined"@ by {
+        lemma_array_shape(n, k);
+        lemma_union_shape(n + brackets(k), " | undefined"@);
+        if suffix == " | undefined"@ {
+            assert(base == n + brackets(k));
+            assert(rb == qname(n) + brackets(k));
+        } else {
+            // s ends with " | null" but also with " | undefined": last characters differ
+            assert(s[s.len() - 1] == " | undefined"@[11]);
+            assert(s.subrange(s.len() - 7, s.len() as int)[6] == 'l');
+        }
+    }
+}
+
+/// exits that return the text unchanged because it is none of the shapes (Record<, Map<, [..], types.)
+proof fn lemma_exit_other(s: Seq<char>, r: Seq<char>)
+    requires has_prefix(s, "Record<"@) || has_prefix(s, "Map<"@) || has_prefix(s, "types."@) || (s.len() > 0 && s[0] == '['),
+    ensures qualifies(s, r),
+{
+    lemma_lits();
+    assert forall|n: Seq<char>, k: nat| #![trigger n + brackets(k)] ts_name(n) implies
+        s != n + brackets(k) && s != n + brackets(k) + " | null"@ && s != n + brackets(k) + " | undefined"@ by {
+        lemma_array_shape(n, k);
+        let x = n + brackets(k);
+        lemma_union_shape(x, " | null"@);
+        lemma_union_shape(x, " | undefined"@);
+        // "types." : position 5 is '.', which is neither a name character, a bracket nor part of the suffixes
+        if has_prefix(s, "types."@) {
+            assert(s.subrange(0, 6)[5] == '.');
+            assert(s[5] == '.');
+            if s == x { assert(x[5] == '.'); }
+            if s == x + " | null"@ { if 5 < x.len() { assert((x + " | null"@)[5] == x[5]); } else { assert((x + " | null"@)[5] == " | null"@[5 - x.len()]); } }
+            if s == x + " | undefined"@ { if 5 < x.len() { assert((x + " | undefined"@)[5] == x[5]); } else { assert((x + " | undefined"@)[5] == " | undefined"@[5 - x.len()]); } }
+        }
+        if s.len() > 0 && s[0] == '[' {
+            assert(x[0] == n[0]);
+            assert((x + " | null"@)[0] == x[0]);
+            assert((x + " | undefined"@)[0] == x[0]);
+        }
+    }
+}
+
+proof fn lemma_exit_custom(s: Seq<char>)
+    requires !builtin(s), !has_suffix(s, "[]"@), !has_suffix(s, " | null"@), !has_suffix(s, " | undefined"@),
+    ensures qualifies(s, "types."@ + s),
+{
+    lemma_lits();
+    let r = "types."@ + s;
+    assert forall|n: Seq<char>, k: nat| #![trigger n + brackets(k)] ts_name(n) && s == n + brackets(k) implies r == qname(n) + brackets(k) by {
+        lemma_array_shape(n, k);
+        assert(k == 0);
+        assert(brackets(0) =~= Seq::<char>::empty());
+        assert(qname(n) + brackets(k) =~= r);
+    }
+    assert forall|n: Seq<char>, k: nat| #![trigger n + brackets(k)] ts_name(n) && s == n + brackets(k) + " | null"@ implies r == qname(n) + brackets(k) + " | null"@ by {
+        lemma_array_shape(n, k);
+        lemma_union_shape(n + brackets(k), " | null"@);
+    }
+    assert forall|n: Seq<char>, k: nat| #![trigger n + brackets(k)] ts_name(n) && s == n + brackets(k) + " | undefined"@ implies r == qname(n) + brackets(k) + " | undefined"@ by {
+        lemma_array_shape(n, k);
+        lemma_union_shape(n + brackets(k), " | undefined"@);
+    }
+}
+
 //@ EXTRACT-FN file=src/generators/base/templates.rs fn=add_types_prefix props=C02
 //@ RETURNS r
 //@ CONTRACT
 //@|    ensures
 //@|        builtin(ts_type@) ==> r@ == ts_type@,
-//@|        ts_name(ts_type@) ==> r@ == qname(ts_type@),
-//@|        forall|n: Seq<char>| #![trigger ts_name(n)] ts_name(n) && (builtin_elem(n) || !builtin(n)) && ts_type@ == n + "[]"@ ==> r@ == qname(n) + "[]"@,
-//@|        forall|n: Seq<char>| #![trigger ts_name(n)] ts_name(n) && (builtin_elem(n) || !builtin(n)) && ts_type@ == n + "[]"@ + "[]"@ ==> r@ == qname(n) + "[]"@ + "[]"@,
-//@|        forall|n: Seq<char>| #![trigger ts_name(n)] ts_name(n) && ts_type@ == n + " | null"@ ==> r@ == qname(n) + " | null"@,
-//@|        forall|n: Seq<char>| #![trigger ts_name(n)] ts_name(n) && (builtin_elem(n) || !builtin(n)) && ts_type@ == n + "[]"@ + " | null"@ ==> r@ == qname(n) + "[]"@ + " | null"@,
+//@|        qualifies(ts_type@, r@),
+//@|        forall|a: Seq<char>, b: Seq<char>| #![trigger ts_name(a), ts_name(b)] ts_name(a) && ts_name(b) && ts_type@ == "Record<"@ + a + ", "@ + b + ">"@ ==> r@ == "Record<"@ + qname(a) + ", "@ + qname(b) + ">"@,
+//@|        forall|a: Seq<char>, b: Seq<char>| #![trigger ts_name(a), ts_name(b)] ts_name(a) && ts_name(b) && ts_type@ == "["@ + a + ", "@ + b + "]"@ ==> r@ == "["@ + qname(a) + ", "@ + qname(b) + "]"@,
 //@|    decreases ts_type@.len(),
 //@ FIRST
 //@|    proof { lemma_lits(); }
+//@ BEFORE `return ts_type.to_string();` #1
+//@|    proof { lemma_exit_builtin(ts_type@); }
+//@ BEFORE `return format!("{}[]", add_types_prefix(base_type));`
+//@|    proof {
+//@|        assert forall|rb: Seq<char>| #[trigger] qualifies(base_type@, rb) implies qualifies(ts_type@, rb + "[]"@) by {
+//@|            lemma_exit_array(ts_type@, base_type@, rb);
+//@|        }
+//@|    }
+//@ BEFORE `return format!("{} | null", add_types_prefix(base));`
+//@|    proof {
+//@|        assert forall|rb: Seq<char>| #[trigger] qualifies(base@, rb) implies qualifies(ts_type@, rb + " | null"@) by {
+//@|            lemma_exit_union(ts_type@, " | null"@, base@, rb);
+//@|        }
+//@|    }
+//@ BEFORE `return format!("{} | undefined", add_types_prefix(base));`
+//@|    proof {
+//@|        assert forall|rb: Seq<char>| #[trigger] qualifies(base@, rb) implies qualifies(ts_type@, rb + " | undefined"@) by {
+//@|            lemma_exit_union(ts_type@, " | undefined"@, base@, rb);
+//@|        }
+//@|    }
+//@ BEFORE `if ts_type.starts_with("types.") {`
+//@|    proof {
+//@|        if has_prefix(ts_type@, "types."@) { lemma_exit_other(ts_type@, ts_type@); } else { lemma_exit_custom(ts_type@); }
+//@|    }
+//@ BEFORE `return ts_type.to_string();` #2
+//@|    proof { lemma_exit_other(ts_type@, ts_type@); }
+//@ BEFORE `return ts_type.to_string();` #3
+//@|    proof { lemma_exit_other(ts_type@, ts_type@); }
 //@ END
 
 //@ AUTO-FREE-FNS
+//@ PROPS C02
+/// C02: what `qualifies` means for the commonest shapes, spelled out
+pub proof fn lemma_C02_names_resolve_through_the_types_namespace(n: Seq<char>, r0: Seq<char>, r1: Seq<char>, r2: Seq<char>, r3: Seq<char>)
+    requires
+        ts_name(n), !builtin(n),
+        qualifies(n, r0), qualifies(n + "[]"@, r1), qualifies(n + "[]"@ + "[]"@, r2), qualifies(n + "[]"@ + " | null"@, r3),
+    ensures
+        r0 == "types."@ + n,
+        r1 == "types."@ + n + "[]"@,
+        r2 == "types."@ + n + "[]"@ + "[]"@,
+        r3 == "types."@ + n + "[]"@ + " | null"@,
+{
+    lemma_lits();
+    assert(brackets(0) =~= Seq::<char>::empty());
+    assert(brackets(1) =~= "[]"@) by { assert(brackets(1) == brackets(0) + "[]"@); }
+    assert(brackets(2) =~= "[]"@ + "[]"@) by { assert(brackets(2) == brackets(1) + "[]"@); }
+    assert(n + brackets(0) =~= n);
+    assert(n + brackets(1) =~= n + "[]"@);
+    assert(n + brackets(2) =~= n + "[]"@ + "[]"@);
+    assert(qname(n) + brackets(0) =~= "types."@ + n);
+    assert(qname(n) + brackets(1) =~= "types."@ + n + "[]"@);
+    assert(qname(n) + brackets(2) =~= "types."@ + n + "[]"@ + "[]"@);
+    assert(n + brackets(1) + " | null"@ =~= n + "[]"@ + " | null"@);
+    assert(qname(n) + brackets(1) + " | null"@ =~= "types."@ + n + "[]"@ + " | null"@);
+}
+
 } // verus!
 fn main() {}
